@@ -193,14 +193,14 @@ theorem nestDisj_err : ∀ {evs : List Event} {x : Err}, evs ≠ [] → nestDisj
       · exact nestDisj_err (by simp) h1
       · exact mkDisj_err a r x h
 
-theorem mapM_length {α β : Type} {f : α → M β} : ∀ {l : List α} {r : List β}, l.mapM f = .ok r → r.length = l.length
+theorem mapM_ok_length {α β : Type} {f : α → M β} : ∀ {l : List α} {r : List β}, l.mapM f = .ok r → r.length = l.length
   | [], r, h => by simp [List.mapM_nil, pure, Except.pure] at h; subst h; rfl
   | a :: l, r, h => by
       rw [List.mapM_cons] at h
       obtain ⟨b, _, h⟩ := bind_ok h
       obtain ⟨bs, hbs, h⟩ := bind_ok h
       cases h
-      simp [mapM_length hbs]
+      simp [mapM_ok_length hbs]
 
 /-- a written event: a disjunction lists at least two alternatives -/
 def RawEvent.WF : RawEvent → Prop
@@ -214,7 +214,7 @@ theorem buildEvent_err {ev : RawEvent} {x : Err} (hw : ev.WF) (h : buildEvent ev
     simp only [buildEvent] at h
     rcases bind_err h with h1 | ⟨evs, hevs, h⟩
     · exact mapM_buildSimple_err h1
-    · have hlen := mapM_length hevs
+    · have hlen := mapM_ok_length hevs
       have h2 : ¬ evs.length < 2 := by rw [hlen]; exact Nat.not_lt.mpr hw
       simp only [h2, ↓reduceIte] at h
       exact Or.inr (Or.inl (nestDisj_err (by intro he; rw [he] at h2; simp at h2) h))
